@@ -9,16 +9,27 @@ and is width * height * bytes_per_pixel; the loop terminates (variant: bytes of 
 from vclib.core import X, Check, Unit
 
 TGA = 'boost/gil/extension/io/targa/detail/read.hpp'
+def lower_pixel_read(body):
+    """the run packet's pixel value: either one checked read_uint8() per channel (loop) or one read(pixel_data, n) call; both are lowered to
+    ghost reads that record how many bytes of pixel_data came from the input"""
+    import re
+    body, a = re.subn(r'for\( size_t channel = 0; channel < bytes_per_pixel; \+\+channel \)\s*\{\s*pixel_data\[channel\] = this->_io_dev\.read_uint8\(\);\s*\}',
+                      'for( size_t channel = 0; channel < bytes_per_pixel; ++channel )\nCHANNEL_LOOP_CONTRACT\n{ pixel_data[channel] = DEV_read_uint8(); PD_SET(channel); }', body)
+    body, b = re.subn(r'this->_io_dev\.read\( pixel_data, bytes_per_pixel \)', 'DEV_read_buf(bytes_per_pixel)', body)
+    return body, a + b
+
+
 R_TGA = [
     ('R8.depth_t', r'targa_depth::type', 'DEPTH_T', True), ('R8.offset_t', r'targa_offset::type', 'OFFSET_T', True),
     ('R14.alloc', r'byte_vector_t image_data\( image_size \);', 'IMG_ALLOC(image_size);', True),
     ('R11.seek', r'this->_io_dev\.seek\( static_cast< long >\( this->_info\._offset \)\);', 'DEV_seek();', True),
-    ('R11.read8', r'this->_io_dev\.read_uint8\(\)', 'DEV_read_uint8()', True),
     ('R14.memcpy', r'memcpy\( &image_data\[pixel\], pixel_data, bytes_per_pixel \);', 'IMG_WRITE(pixel, bytes_per_pixel);', True),
     ('R14.read_into', r'this->_io_dev\.read\( &image_data\[pixel\], pixels_written \);', 'DEV_read_into(pixel, pixels_written);', True),
     ('R11.io_error', r'io_error\( "[^"]*" \);', 'THROW();', False),
     ('L.outer', r'for\( size_t pixel = 0; pixel < image_size; \)', 'for( size_t pixel = 0; pixel < image_size; )\nOUTER_LOOP_CONTRACT', True),
-    ('L.channel', r'for\( size_t channel = 0; channel < bytes_per_pixel; \+\+channel \)', 'for( size_t channel = 0; channel < bytes_per_pixel; ++channel )\nCHANNEL_LOOP_CONTRACT', True),
+    ('R14.pixel_read', lower_pixel_read, None, True),
+    ('R11.read8', r'this->_io_dev\.read_uint8\(\)', 'DEV_read_uint8()', True),
+    ('R14.pd_decl', r'uint8_t pixel_data\[4\];', 'uint8_t pixel_data[4]; g_pd_init = 0;', True),
     ('L.run', r'for\( uint8_t i = 0; i < chunk_length; \+\+i, pixel \+= bytes_per_pixel \)', 'for( uint8_t i = 0; i < chunk_length; ++i, pixel += bytes_per_pixel )\nRUN_LOOP_CONTRACT', True),
 ]
 X_TGA = [X('size_expr', TGA, r'void read_rle_data\( const View_Dst& view \)\s*\{.*?size_t image_size = (.*?);', kind='expr', rules=[]),
@@ -35,17 +46,22 @@ static uint8_t DEV_read_uint8(void) { if (g_remaining == 0) THROW(); g_remaining
 static void DEV_seek(void) { size_t r; g_remaining = r <= ((size_t)1 << 40) ? r : 0; }
 size_t g_img_n;                                 /* ghost std::vector<byte_t> image_data(n) */
 #define IMG_ALLOC(n) { g_img_n = (n); }
-#define IMG_WRITE(off, n) __CPROVER_assert((off) <= g_img_n && (size_t)(n) <= g_img_n - (off), "run chunk: memcpy into image_data stays inside the buffer")
+size_t g_pd_init;                               /* ghost: how many leading bytes of pixel_data[4] hold bytes of the input */
+#define PD_SET(c) { if ((c) == g_pd_init) g_pd_init = g_pd_init + 1; }
+/* read(byte_t* data, count) into pixel_data: delivers at most count bytes, fewer at the end of the input, and returns their number */
+static size_t DEV_read_buf(size_t n) { __CPROVER_assert(n <= 4, "the device read into pixel_data[4] stays inside the array"); size_t k; __CPROVER_assume(k <= n && k <= g_remaining); g_remaining = g_remaining - k; g_pd_init = k; return k; }
+#define IMG_WRITE(off, n) { __CPROVER_assert((off) <= g_img_n && (size_t)(n) <= g_img_n - (off), "run chunk: memcpy into image_data stays inside the buffer"); \
+  __CPROVER_assert(g_pd_init >= (size_t)(n), "run chunk: every byte copied from pixel_data came from the input (no uninitialised byte of a short read is used as data)"); }
 /* read(byte_t* data, count): delivers at most count bytes, fewer at the end of the input (not an error for this overload) */
 static void DEV_read_into(size_t off, size_t n) { __CPROVER_assert(off <= g_img_n && n <= g_img_n - off, "raw chunk: the device read into image_data stays inside the buffer");
   size_t k; __CPROVER_assume(k <= n && k <= g_remaining); g_remaining = g_remaining - k; }
 #define OUTER_LOOP_CONTRACT \
-  __CPROVER_assigns(pixel, g_remaining) \
+  __CPROVER_assigns(pixel, g_remaining, g_pd_init) \
   __CPROVER_loop_invariant(pixel <= image_size && g_img_n == image_size && g_remaining <= ((size_t)1 << 40)) \
   __CPROVER_decreases(image_size - pixel)
 #define CHANNEL_LOOP_CONTRACT \
-  __CPROVER_assigns(channel, g_remaining, __CPROVER_object_whole(pixel_data)) \
-  __CPROVER_loop_invariant(channel <= bytes_per_pixel && g_remaining <= __CPROVER_loop_entry(g_remaining)) \
+  __CPROVER_assigns(channel, g_remaining, g_pd_init, __CPROVER_object_whole(pixel_data)) \
+  __CPROVER_loop_invariant(channel <= bytes_per_pixel && g_pd_init == channel && g_remaining <= __CPROVER_loop_entry(g_remaining)) \
   __CPROVER_decreases(bytes_per_pixel - channel)
 #define RUN_LOOP_CONTRACT \
   __CPROVER_assigns(i, pixel) \
@@ -54,7 +70,7 @@ static void DEV_read_into(size_t off, size_t n) { __CPROVER_assert(off <= g_img_
 void read_rle_data(rdr_t* self)
 __CPROVER_requires(__CPROVER_is_fresh(self, sizeof(*self)))
 __CPROVER_requires(self->_info._bits_per_pixel == BPP_CASE)      /* the depths reader::apply dispatches to the RLE decoder: 24 and 32, one proof each */
-__CPROVER_assigns(g_remaining, g_img_n)
+__CPROVER_assigns(g_remaining, g_img_n, g_pd_init)
 __CPROVER_ensures(g_remaining <= ((size_t)1 << 40))      /* (the size of the buffer is the subject of the lemma hz_image_size: products are out of reach of the SAT back end) */
 {
   @@rle_decode@@
@@ -85,12 +101,20 @@ TGA_WINDOW = r'''
 using namespace boost::gil;
 static std::string g_case; static long g_cases = 0, g_fail = 0; static std::string g_first;
 static void on_death() { std::fprintf(stderr, "\nFAILING INPUT: %s\n", g_case.c_str()); }
-static void on_alarm(int) { std::printf("\nFAILING INPUT: %s\nREPRODUCED: the decoder did not terminate within 10 s\nCLAUSE tga_window FAIL 1 the decoder terminates\nFAILCASE no termination on %s\nNATIVE cases=%ld window=stopped by the watchdog\n", g_case.c_str(), g_case.c_str(), g_cases); std::fflush(stdout); _exit(1); }
+static void on_alarm(int) { std::printf("\nFAILING INPUT: %s\nREPRODUCED: the decoder did not terminate within 120 s\nCLAUSE tga_window FAIL 1 the decoder terminates\nFAILCASE no termination on %s\nNATIVE cases=%ld window=stopped by the watchdog\n", g_case.c_str(), g_case.c_str(), g_cases); std::fflush(stdout); _exit(1); }
 static void le16(std::string& s, unsigned v) { s.push_back((char)(v & 255)); s.push_back((char)((v >> 8) & 255)); }
 static std::string hexs(std::string const& s) { static const char* d = "0123456789abcdef"; std::string o; for (unsigned char c : s) { o.push_back(d[c >> 4]); o.push_back(d[c & 15]); o.push_back(' '); } return o; }
 static std::string tga(int w, int h, int bpp, int type, int descriptor, std::string const& data) { std::string s; s.push_back(0); s.push_back(0); s.push_back((char)type); le16(s, 0); le16(s, 0); s.push_back(0); le16(s, 0); le16(s, 0); le16(s, w); le16(s, h); s.push_back((char)bpp); s.push_back((char)descriptor); return s + data; }
+// output must not depend on what the stack held before the call (uninitialised bytes of a short read used as pixel data)
+static void __attribute__((noinline)) scribble(unsigned char v) { volatile unsigned char a[32768]; for (size_t i = 0; i < sizeof a; i++) a[i] = v; }
+template <typename Img> static unsigned long __attribute__((noinline)) decode_hash(std::string const& bytes) { std::istringstream in(bytes, std::ios::binary); Img img; unsigned long h = 1469598103934665603ul;
+  try { read_image(in, img, targa_tag()); } catch (std::exception const&) { return 1; }
+  for (auto p : view(img)) for (int c = 0; c < (int)num_channels<Img>::value; c++) h = (h ^ (unsigned long)p[c]) * 1099511628211ul; return h; }
+template <typename Img> static void feed_twice(std::string const& bytes, std::string const& desc) { g_cases++; g_case = desc; alarm(120);
+  scribble(0xAA); unsigned long h1 = decode_hash<Img>(bytes); scribble(0x55); unsigned long h2 = decode_hash<Img>(bytes); alarm(0);
+  if (h1 != h2) { g_fail++; if (g_first.empty()) g_first = "decoded pixels depend on indeterminate memory (two runs over the same bytes differ) on " + desc; } }
 template <typename Img> static void feed(std::string const& bytes, std::string const& desc) { g_cases++; g_case = desc; std::istringstream in(bytes, std::ios::binary); Img img;
-  alarm(10); try { read_image(in, img, targa_tag()); } catch (std::exception const&) {} alarm(0); }
+  alarm(120); try { read_image(in, img, targa_tag()); } catch (std::exception const&) {} alarm(0); }
 static void window(bool thorough) {
   for (int bpp : {24, 32}) { int B = bpp / 8; std::vector<std::string> A;
     for (int n : {1, 2, 3, 5, 128}) { std::string r; r.push_back((char)(0x80 | (n - 1))); r += std::string(B, (char)0x55); A.push_back(r); }       // run chunks
@@ -102,11 +126,10 @@ static void window(bool thorough) {
         std::string desc = "TGA " + std::to_string(w) + "x" + std::to_string(h) + " bpp=" + std::to_string(bpp) + " type=10 descriptor=" + std::to_string(descr) + " data: " + (data.size() > 40 ? hexs(data.substr(0, 40)) + "... (" + std::to_string(data.size()) + " bytes)" : hexs(data));
         if (bpp == 24) feed<rgb8_image_t>(tga(w, h, bpp, 10, descr, data), desc); else feed<rgba8_image_t>(tga(w, h, bpp, 10, descr, data), desc); }
       int d = depth - 1; while (d >= 0 && ++idx[d] == (int)A.size()) { idx[d] = 0; d--; } if (d < 0) done = true; } }
-  // the largest declarable image, read through a 1 x 1 window (the size computation of the RLE decoder)
-  for (int bpp : {24, 32}) { g_cases++; g_case = "TGA 65535x65535 bpp=" + std::to_string(bpp) + " type=10 read_view with image_read_settings top_left=(0,0) dim=(1,1), data: 83 01 02 03 04";
-    std::istringstream in(tga(65535, 65535, bpp, 10, bpp == 32 ? 8 : 0, std::string("\x83\x01\x02\x03\x04", 5)), std::ios::binary);
-    alarm(60); try { if (bpp == 24) { rgb8_image_t img(1, 1); read_view(in, view(img), image_read_settings<targa_tag>(point_t(0, 0), point_t(1, 1))); }
-                     else { rgba8_image_t img(1, 1); read_view(in, view(img), image_read_settings<targa_tag>(point_t(0, 0), point_t(1, 1))); } } catch (std::exception const&) {} alarm(0); }
+  // every prefix of valid RLE streams (runs and raw packets): the result must not depend on indeterminate memory
+  for (int bpp : {24, 32}) { int B = bpp / 8; std::string data; data.push_back((char)0x82); data += std::string(B, (char)0x41); data.push_back((char)0x01); data += std::string(2 * B, (char)0x42); data.push_back((char)0x83); data += std::string(B, (char)0x43);
+    for (size_t cut = 0; cut <= data.size(); cut++) { std::string desc = "TGA 3x3 bpp=" + std::to_string(bpp) + " type=10, RLE data truncated to " + std::to_string(cut) + " bytes: " + hexs(data.substr(0, cut));
+      if (bpp == 24) feed_twice<rgb8_image_t>(tga(3, 3, bpp, 10, 0, data.substr(0, cut)), desc); else feed_twice<rgba8_image_t>(tga(3, 3, bpp, 10, 8, data.substr(0, cut)), desc); } }
   // uncompressed, truncated at every length
   for (int bpp : {24, 32}) for (int w : {1, 3}) for (int h : {1, 2}) { std::string full = tga(w, h, bpp, 2, bpp == 32 ? 8 : 0, std::string(w * h * (bpp / 8), (char)0x22));
     for (size_t cut = 0; cut <= full.size(); cut++) { std::string desc = "TGA uncompressed " + std::to_string(w) + "x" + std::to_string(h) + " bpp=" + std::to_string(bpp) + " truncated to " + std::to_string(cut) + " bytes";
@@ -115,12 +138,14 @@ static void window(bool thorough) {
 TGA_NATIVE = TGA_WINDOW + r'''
 int main(int argc, char** argv){ vr::parse(argc, argv); __sanitizer_set_death_callback(on_death); signal(SIGALRM, on_alarm);
   window(vr::str("tier") == "thorough");
-  std::printf("CLAUSE tga_window %s %ld every crafted TARGA file is decoded or rejected with no sanitizer report and no hang\n", g_fail ? "FAIL" : "PASS", g_fail);
+  std::printf("CLAUSE tga_window %s %ld every crafted TARGA file is decoded or rejected with no sanitizer report, no hang and no dependence on indeterminate memory\n", g_fail ? "FAIL" : "PASS", g_fail);
+  if (g_fail) std::printf("FAILCASE %s\n", g_first.c_str());
   std::printf("NATIVE cases=%ld window=all RLE chunk sequences of length 3 (quick) or 4 (thorough) over 10 chunks (runs of 1,2,3,5,128, raw chunks of 1,2,4,128, one raw chunk cut short), 24 and 32 bpp, images 1,2,3,5 x 1,2,3, both origins; uncompressed files truncated at every length\n", g_cases); return 0; }
 '''
 TGA_REPLAY = TGA_WINDOW + r'''
 int main(int argc, char** argv){ vr::parse(argc, argv); __sanitizer_set_death_callback(on_death); signal(SIGALRM, on_alarm);
   window(true);
+  if (g_fail) REPRODUCED("%s", g_first.c_str());
   NOT_REPRODUCED("no crafted TARGA file of the search window (%ld files) misbehaves", g_cases); }
 '''
 UNITS = [
